@@ -39,6 +39,13 @@ def spelled_reply(cfg, sp):
     return reply
 
 
+# an offer the application writes itself (HTTP header names are case-insensitive)
+OFFER_HEADERS = [(b"Sec-WebSocket-Extensions", b"permessage-deflate; client_max_window_bits"),
+                 (b"sec-websocket-extensions", b"permessage-deflate"),
+                 (b"SEC-WEBSOCKET-EXTENSIONS", b"permessage-deflate; server_max_window_bits=10; client_max_window_bits=9"),
+                 (b"Sec-Websocket-Extensions", b"x-webkit-deflate-frame, permessage-deflate; client_no_context_takeover")]
+
+
 class C06(Prop):
     id = "C06"
     level = "exploration"
@@ -100,6 +107,9 @@ class C06(Prop):
             "cfg": cfg, "spelling": sp,
             "steps": st.lists(st.one_of(cstep, sstep), min_size=1, max_size=10),
             "negotiated": gen.weighted([(7, st.just(True)), (1, st.just(False))]),
+            # who wrote the offer: the library (compress=True) or the application itself, with add_header() - the only way
+            # to ask for particular parameters - in any spelling of the header name
+            "offer": gen.weighted([(6, st.none()), (1, st.integers(0, len(OFFER_HEADERS) - 1))]),
             "damage": st.one_of(st.none(), st.none(), st.none(),
                                 st.tuples(st.integers(0, 9), st.integers(0, 4000), st.integers(1, 255)).map(list)),
             "seg": gen.segmentation(),
@@ -124,6 +134,14 @@ class C06(Prop):
                             cfg = {"sb": sb, "cb": cb, "snct": snct, "cnct": cnct}
                             for h in range(len(self.BATTERY)):
                                 yield {"cfg": cfg, "battery": h}
+
+        def own_offer():
+            # the battery (a few configurations) with the offer written by the application
+            for k in range(len(OFFER_HEADERS)):
+                for cfg in ({"sb": 15, "cb": 15, "snct": False, "cnct": False}, {"sb": 10, "cb": 9, "snct": False, "cnct": True},
+                            {"sb": 9, "cb": 12, "snct": True, "cnct": False}):
+                    for h in range(len(self.BATTERY)):
+                        yield {"cfg": cfg, "battery": h, "offer": k}
 
         def invalid():
             for key in ("server_max_window_bits", "client_max_window_bits"):
@@ -156,6 +174,7 @@ class C06(Prop):
             return make
         return [Enumeration("all_256_configurations_x_battery", battery, exhaustive=True),
                 Enumeration("invalid_parameters", invalid, exhaustive=True),
+                Enumeration("offer_written_by_the_application_with_add_header", own_offer, exhaustive=True),
                 Enumeration("concurrent_compressed_senders_single_preemptions", scheduled(0), exhaustive=True),
                 Enumeration("concurrent_compressed_senders_first_use_races", scheduled(1), exhaustive=True)]
 
@@ -228,7 +247,7 @@ class C06(Prop):
                        {"order": 8, "fold": 2, "name": 1, "pre": "", "post": " "}, {"order": 6, "fold": 3, "pre": "\t"}]
             spelling = presets[(cfg0["sb"] + cfg0["cb"] * 3 + case["battery"]) % len(presets)]
             case = {"cfg": case["cfg"], "spelling": spelling, "steps": self.BATTERY[case["battery"]],
-                    "negotiated": True, "damage": None, "seg": "whole"}
+                    "negotiated": True, "damage": None, "seg": "whole", "offer": case.get("offer")}
         cfg = case["cfg"]
         negotiated = case["negotiated"]
         peer = deflateref.Peer(cfg["sb"], cfg["cb"], cfg["snct"], cfg["cnct"])
@@ -347,9 +366,15 @@ class C06(Prop):
         order.sort()
         reply_len = len(httpref.build_reply(reply, b""))
         seg = effective_seg(case["seg"], reply_len + len(data))
+        ws_opts = {"compress": True}
+        if negotiated and case.get("offer") is not None:
+            # the offer is the application's own header (the peer sees an offer and accepts it all the same)
+            hname, hvalue = OFFER_HEADERS[case["offer"] % len(OFFER_HEADERS)]
+            ws_opts = {"headers": [[hname.hex(), hvalue.hex()]]}
+            labels.add("offer_written_by_the_application")
         scn = build.scenario(
             [["wait_request"], ["stream", [["reply", reply], ["bytes", bytes(data)]], seg, 0.0], ["eof", 1.0]],
-            ws_opts={"compress": True}, reactions=reactions, connect_opts={"ping_rate": 0, "auto_pong": False})
+            ws_opts=ws_opts, reactions=reactions, connect_opts={"ping_rate": 0, "auto_pong": False})
         tr = simnet.run_scenario(scn)
         names = tr.names()
         takeover_c = (not cfg["cnct"])
